@@ -174,7 +174,11 @@ func c03Body(d c03Desc, tier string) func() {
 					// GetParameters, or an empty/null document), never what an earlier call carried
 					echo.got = echo.got[:0]
 					var outn json.RawMessage
-					err := conn.Call(live, "t.r.Echo", nil, &outn)
+					// (Send, not Call: Call wraps its argument and so always sends a parameters member)
+					recvn, err := conn.Send(live, "t.r.Echo", nil, 0)
+					if err == nil {
+						_, err = recvn(live, &outn)
+					}
 					st.cases++
 					if err != nil || len(echo.got) != 1 || !(strings.HasPrefix(echo.got[0], "ERR:") || echo.got[0] == "null" || echo.got[0] == "{}") {
 						fail("a call without parameters (after a call with %s): the handler read %v (err %v)", doc, echo.got, err)
